@@ -22,7 +22,8 @@ Record run_obs := {
   ro_ctx : list bool;
   ro_attempts : list att_obs;
   ro_status : status;
-  ro_trace : list aevent
+  ro_trace : list aevent;
+  ro_stuck : bool                                  (* the plan hung and this run saw no event for over a second *)
 }.
 
 Record acase := {
@@ -132,31 +133,33 @@ Definition run_differs (r : nat) (script : nat -> outcome) (o : run_obs) : nat :
 (* verdict codes (first element of check_case's answer):
      0  fine
      1..4  run differs from run_action (calls / ctx flags / attempts / status)           [then: action, run]
-     5  the run's trace is not accepted by ActionAuto                                    [action, run, event index]
-     6  the monitor of Appendix B rejects the run's trace                                [action, run, event index]
+     6  the monitor of Appendix B rejects the run's trace (the property is false on it)   [action, run, event index]
+     5  the monitor passes but ActionAuto does not accept the run's trace                [action, run, event index]
      7  the property evaluated on the observation itself is false                        [action, run]
      8  the value read back from storage differs from the last write of the last run     [action]
+    10  the plan hung and this run is stuck inside the action run (no event for over a second, run not closed) [action, run]
      9  an action that never started has attempts, a status other than NotStarted, or events other than
         NotStarted writes                                                                [action]            *)
 Definition check_run (r : nat) (dflt : outcome) (o : run_obs) : list nat :=
   let script := script_of (ro_script o) dflt in
   let d := run_differs r script o in
   if negb (d =? 0) then [d]
-  else if negb (accepted r (ro_trace o)) then [5; first_rejected r ainit 0 (ro_trace o)]
   else if negb (monitor_ok r (ro_trace o)) then [6; mon_first_rejected r m0 0 (ro_trace o)]
+  else if negb (accepted r (ro_trace o)) then [5; first_rejected r ainit 0 (ro_trace o)]
   else if negb (prop_run r script o) then [7]
   else [0].
 
 (* a plan that hung: every run's trace must still be a prefix of an accepted trace, the monitor must not
    have rejected anything, and the invocation bound must hold *)
 Definition check_run_partial (r : nat) (o : run_obs) : list nat :=
-  match arun r (ro_trace o) with
-  | None => [5; first_rejected r ainit 0 (ro_trace o)]
-  | Some _ =>
-      if negb (monitor_ok r (ro_trace o)) then [6; mon_first_rejected r m0 0 (ro_trace o)]
-      else if negb (ro_calls o <=? S r) then [1]
-      else [0]
-  end.
+  if negb (monitor_ok r (ro_trace o)) then [6; mon_first_rejected r m0 0 (ro_trace o)]
+  else match arun r (ro_trace o) with
+       | None => [5; first_rejected r ainit 0 (ro_trace o)]
+       | Some st =>
+           if negb (ro_calls o <=? S r) then [1]
+           else if ro_stuck o && negb (afinal st) then [10]
+           else [0]
+       end.
 
 Fixpoint check_runs (partial : bool) (r : nat) (dflt : outcome) (j : nat) (l : list run_obs) : list nat :=
   match l with
